@@ -1,7 +1,7 @@
-\* N=3, everything emitted (1138 DAGs)
+\* merge ids sort BEFORE basic ids
 SPECIFICATION Spec
 CONSTANTS
-  MergeTag = 2
+  MergeTag = 0
   N = 3
   Kinds = {"b0", "b1", "fin"}
   Ops = {"n"}
